@@ -3,6 +3,7 @@ package p12
 import (
 	"bytes"
 	"fmt"
+	"sort"
 	"math"
 	"os"
 	"strings"
@@ -49,6 +50,13 @@ func (P) Facts() []core.Fact {
 		{Name: "baseSubsidy", Value: int64(50 * btcutil.SatoshiPerBitcoin)},
 		{Name: "lockTimeThreshold", Value: int64(500000000)},
 		{Name: "regtestRelayNonStd", Value: chaincfg.RegressionNetParams.RelayNonStdTxs},
+		{Name: "maxSatoshi", Value: int64(btcutil.MaxSatoshi)},
+		{Name: "maxTimeOffsetSeconds", Value: int64(blockchain.MaxTimeOffsetSeconds)},
+		{Name: "sequenceLockTimeDisabled", Value: int64(wire.SequenceLockTimeDisabled)},
+		{Name: "sequenceLockTimeIsSeconds", Value: int64(wire.SequenceLockTimeIsSeconds)},
+		{Name: "sequenceLockTimeMask", Value: int64(wire.SequenceLockTimeMask)},
+		{Name: "sequenceLockTimeGranularity", Value: int64(wire.SequenceLockTimeGranularity)},
+		{Name: "maxTxInSequenceNum", Value: int64(wire.MaxTxInSequenceNum)},
 	}
 	for k, v := range mining.VerifConstsC12() {
 		fs = append(fs, core.Fact{Name: k, Value: v})
@@ -229,6 +237,9 @@ func (s *scenario) checkFacts(w *world, ci *chainInst, bp *builtPool) string {
 			}
 			if r.kind == 'u' && (!avail || e.Amount() != r.val || e.BlockHeight() != r.height || e.IsCoinBase() != r.cb) {
 				return "stale-line:utxo"
+			}
+			if r.kind == 'u' && r.mtpPrev != 0 && r.mtpPrev != realMTP(ci, r.height-1) {
+				return "stale-line:mtp"
 			}
 		}
 	}
@@ -502,4 +513,23 @@ func (s *scenario) apisAgree(tmpl *mining.BlockTemplate, ublk *btcutil.Block, we
 		}
 	}
 	return true
+}
+
+// realMTP reads the past median time of the main-chain block at the given
+// height from the chain itself.
+func realMTP(ci *chainInst, height int32) int64 {
+	var ts []int64
+	for h := height; h >= 0 && len(ts) < 11; h-- {
+		hash, err := ci.chain.BlockHashByHeight(h)
+		if err != nil {
+			panic(err)
+		}
+		hdr, err := ci.chain.HeaderByHash(hash)
+		if err != nil {
+			panic(err)
+		}
+		ts = append(ts, hdr.Timestamp.Unix())
+	}
+	sort.Slice(ts, func(i, j int) bool { return ts[i] < ts[j] })
+	return ts[len(ts)/2]
 }
